@@ -121,8 +121,11 @@ def run_shard(shard: Dict[str, Any], rep: Report) -> None:
     # ---------------- MultiToSingleWrapper ------------------------------------------------------------------
     if name in MULTI:
         aggs = [("default", None, None, np.sum, np.max), ("mean_min", jnp.mean, jnp.min, np.mean, np.min), ("first", lambda x: x[0], lambda x: x[0], lambda x: x[0], lambda x: x[0])]
-        for aname, ra, da, nra, nda in aggs:
-            w = MultiToSingleWrapper(base) if ra is None else MultiToSingleWrapper(base, reward_aggregator=ra, discount_aggregator=da)
+        # all wrappers exist side by side before any of them is used, and they are used oldest first (a training and an
+        # evaluation wrapper with different aggregators): what one wrapper was given must not leak into another
+        built = [(MultiToSingleWrapper(base) if ra is None else MultiToSingleWrapper(base, reward_aggregator=ra, discount_aggregator=da)) for _, ra, da, _, _ in aggs]
+        rep.count("multi_to_single_wrappers_coexisting", len(built))
+        for (aname, ra, da, nra, nda), w in zip(aggs, built):
             wr, ws = jax.jit(w.reset), jax.jit(w.step)
             nr, ns = jax.jit(base.reset), jax.jit(base.step)
             key = jax.random.PRNGKey(seeds[0])
